@@ -233,6 +233,13 @@ def worker(spec_path, out_path):
                 for name in spec["extract_rz"]:
                     res["rz"][name] = extractors.EXTRACTORS[name](eq, mesh, spec)
             mesh.geometry()
+            # other meshes built completely (equilibrium, mesh, geometry) between this mesh's geometry() and its writeGridfile(): what is written
+            # must not depend on them
+            for hs in spec.get("interleave", []):
+                heq = make_equilibrium(hs)
+                hm = BoutMesh(heq, dict(hs["options"]))
+                hm.geometry()
+                del hm, heq
             nc = out_path + ".nc"
             mesh.writeGridfile(nc)
             v, a = read_nc(nc)
